@@ -48,6 +48,10 @@ fn cases_deviations(_rng: &mut Rng, sink: &mut dyn FnMut(J) -> bool) {
         list.push((base(json!({"arr": [{"...": "#0"}]})), vec![json!(["s", v.clone()])], None));
         list.push((base(json!({"_sd": ["#0"]})), vec![json!(["s", "o", {"_sd": ["#1"], "a": [{"...": "#2"}, v.clone()]}]), json!(["s", "n", v.clone()]), json!(["s", v.clone()])], None));
     }
+    // plain members whose names merely start with `_sd` / `...` are ordinary claims, at every level
+    list.push((base(json!({"_sdk_version": "1", "_sd1": [1], "o": {"_sd_card": "s", "_sd": ["#0"], "_sdx": {"_sd_": 1}, "....": 1, "...x": 2}, "arr": [{"_sdk": 1}, {"...": "#1"}]})), vec![json!(["s", "n", {"_sd_card": 1, "_sd_alg": "x", "k": [{"_sdz": 2}]}]), json!(["s", {"_sdk_version": "2", "_sd.": 1}])], None));
+    list.push((base(json!({"_sd": ["#0"]})), vec![json!(["s", "o", {"_sd": ["#1"], "_sdk": true, "_sd_alg": "nested"}]), json!(["s", "_sdk_version", {"_sd1": 1}])], None));
+    list.push((base(json!({"arr": [{"...": "#0"}, {"....": 1}, {"...x": 2}]})), vec![json!(["s", [{"_sdq": 1}, {"_sd ": 2}]])], None));
     // ---- duplicate digests
     list.push((base(json!({"_sd": ["#0", "#0"]})), vec![d_n0.clone()], None));
     list.push((base(json!({"_sd": ["#0"], "o": {"_sd": ["#0"]}})), vec![d_n0.clone()], None));
